@@ -454,7 +454,7 @@ int main(int argc, char *argv[])
         uint8_t data = asm_context.memory_read(i);
         fprintf(asm_context.list, " %02x", data);
 
-        if (data >= ' ' && data <= 120)
+        if (data >= ' ' && data < 127)
         { str[ptr++] = data; }
           else
         { str[ptr++] = '.'; }
